@@ -215,7 +215,8 @@ Step(S, e) ==
 
     [] e.e = "NewBatch" ->
         [S |-> [S EXCEPT !.bat = Upd(@, e.b, [kind |-> e.a, st |-> "pending", items |-> <<>>, nbefore |-> 0,
-                                              nafter |-> 0, nbegin |-> 0, sched |-> FALSE])],
+                                              nafter |-> 0, nbegin |-> 0, sched |-> FALSE]),
+                         !.fut = Upd(@, e.b, FutRec(FALSE, VNone, 0))],
          bad |-> {}]
 
     [] e.e = "NewItem" ->
